@@ -271,6 +271,8 @@ def fill(out, shape):
 # ---------------------------------------------------------------- random richer shapes and settings
 def random_shape(rnd):
     names = ["a", "b", "c", "d", "e"]
+    if rnd.random() < 0.35:  # names that are attributes of the Namespace class are ordinary keys too
+        names = ["a", "b", "items", "values", "get"]
     shape = {}
     n = rnd.randint(3, 8)
     tries = 0
